@@ -154,13 +154,23 @@ func genDataMessage(t *rapid.T) *c09Case {
 	if len(bs) > 0 && rapid.Bool().Draw(t, "packed") {
 		c.flags["packed"] = true
 		var run []byte
-		for _, v := range bs {
-			run = wVarintPadded(run, v, genPad(t))
+		longPad := genPad(t)
+		for i, v := range bs {
+			pad := longPad * (i % 2) // (long lists: one drawn padding, alternating, instead of a draw per entry)
+			if len(bs) <= 100 {
+				pad = genPad(t)
+			}
+			run = wVarintPadded(run, v, pad)
 		}
 		fields = append(fields, wBytes(nil, 4, run))
 	} else {
-		for _, v := range bs {
-			bsUnpacked = append(bsUnpacked, wVarintPadded(wTag(nil, 4, 0), v, genPad(t)))
+		longPad := genPad(t)
+		for i, v := range bs {
+			pad := longPad * (i % 2)
+			if len(bs) <= 100 {
+				pad = genPad(t)
+			}
+			bsUnpacked = append(bsUnpacked, wVarintPadded(wTag(nil, 4, 0), v, pad))
 		}
 	}
 	if rapid.Bool().Draw(t, "hasHashType") {
